@@ -29,6 +29,9 @@ pub struct Cfg {
     pub min_params: usize,
     /// parameter kinds spread evenly over kinds with different casts (schema, content, text, status, transfer, ...)
     pub spread_params: bool,
+    /// out of 100: share of multi-module programs in which a leaf module gets a twin (same base name and token
+    /// shape in another directory) and both are used from main
+    pub twin_pct: u32,
 }
 
 impl Cfg {
@@ -62,6 +65,7 @@ impl Default for Cfg {
             fun_pct: 22,
             min_params: 1,
             spread_params: false,
+            twin_pct: 15,
         }
     }
 }
@@ -1342,5 +1346,9 @@ impl<'r> Gen<'r> {
 }
 
 pub fn generate(rng: &mut Rng, cfg: &Cfg) -> Program {
-    Gen::new(rng, cfg.clone()).program()
+    let mut p = Gen::new(rng, cfg.clone()).program();
+    if cfg.twin_pct > 0 && p.modules.len() > 1 && rng.chance(cfg.twin_pct, 100) {
+        super::twin::add_twin(&mut p, rng);
+    }
+    p
 }
